@@ -273,8 +273,8 @@ pub(crate) fn find_do_file(
         log_debug2!(
             "{}: {}:{} ?\n",
             f.name(),
-            do_file.do_dir.to_str().unwrap(),
-            do_file.do_file.to_str().unwrap()
+            do_file.do_dir.to_string_lossy(),
+            do_file.do_file.to_string_lossy()
         );
         if do_path.exists() {
             f.add_dep(ptx, DepMode::Modified, &do_path)?;
